@@ -134,7 +134,9 @@ class Cont:
 
 class Htk(Cont):
     name, major = "htk", 0x10
-    rates = [1, 2, 3, 7, 8000, 11025, 16000, 44100, 65536, 9999999, 10000000, 10000001, 2 ** 31 - 1]
+    # 3.2 MHz .. 10 MHz: the period is 3, 2 or 1 unit and the quantum is coarser than the rate itself (6 MHz reads back as 10 MHz);
+    # the rate clause of the write-side predicate is exact there too (lean/SfModel/AbsWrite.lean `periodQuant`)
+    rates = [1, 2, 3, 7, 8000, 11025, 16000, 44100, 65536, 3200000, 3333334, 5000000, 5000001, 6000000, 9999999, 10000000, 10000001, 2 ** 31 - 1]
     kf_ids = ("KF-HTK-MAGIC-CLASH",)
 
     def quant(self, sr):
